@@ -117,6 +117,20 @@ impl TryFrom<&AddCertificate> for CertifiedKeyWrapper {
         } else {
             add.certificate.names.clone()
         };
+        // SNI reaches the resolver lower-cased and in relative form (rustls),
+        // and DNS names are case-insensitive (RFC 4343): store the names the
+        // way they will be looked up, or "WWW.example.org" / "example.org."
+        // are loaded but never served.
+        let overriding_names: Vec<String> = overriding_names
+            .into_iter()
+            .map(|mut name| {
+                name.make_ascii_lowercase();
+                if name.len() > 1 && name.ends_with('.') {
+                    name.pop();
+                }
+                name
+            })
+            .collect();
 
         // The names become keys of the SNI trie. An empty name, a name with an
         // empty left-most label (".example.org") or a '/' (the trie's regex
